@@ -398,6 +398,11 @@ def _cname(c):
     return f"r{c}" if c in RUNS else (f"ch{c}" if c in CHAINS else f"tag{c}")
 
 
+def _pattern(pat):
+    import re
+    return {"all": "*", "dots": ..., "r": "r*", "ch": "ch*", "tag": "tag*", "re_r": re.compile("r.*"), "re_all": re.compile(".*")}[pat]
+
+
 def _ctype(c):
     from lsst.daf.butler import CollectionType
     return CollectionType.RUN if c in RUNS else (CollectionType.CHAINED if c in CHAINS else CollectionType.TAGGED)
@@ -417,6 +422,7 @@ def _one_registry_history(hist, use_ctx):
         for c, kids in hist.get("init_chains", []):
             reg.setCollectionChain(_cname(c), [_cname(k) for k in kids])
         ids = {}
+        last_ref = [None]
         stack = contextlib.ExitStack()
         in_ctx = False
         with stack:
@@ -440,6 +446,7 @@ def _one_registry_history(hist, use_ctx):
                     elif k == "put":
                         (ref,) = reg.insertDatasets(f"c17t{op['ty']}", [{"instrument": "Cam", "detector": op["id"]}], run=_cname(op["run"]))
                         ids[ref.id] = op["id"]
+                        last_ref[0] = ref
                         ob["res"] = []
                     elif k == "qsummary":
                         s = reg.getCollectionSummary(_cname(op["c"]))
@@ -456,7 +463,27 @@ def _one_registry_history(hist, use_ctx):
                     elif k == "qchain":
                         ob["res"] = [int("".join(ch for ch in n if ch.isdigit())) for n in reg.getCollectionChain(_cname(op["c"]))]
                     elif k == "qcolls":
-                        ob["res"] = sorted(int("".join(ch for ch in n if ch.isdigit())) for n in reg.queryCollections("*", flattenChains=op.get("flatten", False)))
+                        if "pat" not in op:      # older corpus form
+                            names = reg.queryCollections("*", flattenChains=op.get("flatten", False))
+                        elif op.get("api") == "butler":
+                            names = b.collections.query(_pattern(op["pat"]))
+                        else:
+                            names = reg.queryCollections(_pattern(op["pat"]))
+                        ob["res"] = sorted(int("".join(ch for ch in n if ch.isdigit())) for n in names)
+                    elif k == "qdataglob":
+                        if op.get("api") == "new":
+                            rs = b.query_datasets(f"c17t{op['ty']}", collections=_pattern(op["pat"]), find_first=False, explain=False, limit=None)
+                        else:
+                            rs = reg.queryDatasets(f"c17t{op['ty']}", collections=_pattern(op["pat"]))
+                        ob["res"] = sorted(ids.get(r.id, -1) for r in rs)
+                    elif k == "assoc":           # associate into a RUN / CHAINED / unknown collection: must be refused
+                        reg.associate(_cname(op["c"]), [last_ref[0]])
+                        ob["res"] = []
+                    elif k == "register_conflict":   # an existing name with another type: silently keeps the collection
+                        from lsst.daf.butler import CollectionType
+                        c = op["c"]
+                        reg.registerCollection(_cname(c), CollectionType.TAGGED if c not in TAGGED else CollectionType.RUN)
+                        ob["res"] = []
                     elif k == "tag":
                         want = [r for r in reg.queryDatasets(f"c17t{op['ty']}", collections=_cname(op["run"]))]
                         reg.associate(_cname(6), want)
